@@ -198,7 +198,8 @@ pub(crate) async fn process_socket_command(
         handle = core_handle,
         "SocketCore received UserClose command."
       );
-      // Publish event first, then initiate shutdown
+      // Flag first (children spawned from now on look at it), then the event, then the shutdown
+      core_arc.is_running_flag.store(false, std::sync::atomic::Ordering::Release);
       shutdown::publish_socket_closing_event(&core_arc.context, core_handle).await;
       shutdown::initiate_core_shutdown(core_arc.clone(), socket_logic_strong, false).await;
       let _ = reply_tx.send(Ok(())); // Acknowledge close initiation
@@ -209,7 +210,7 @@ pub(crate) async fn process_socket_command(
         handle = core_handle,
         "SocketCore received direct Stop command."
       );
-      // Publish event first, then initiate shutdown
+      core_arc.is_running_flag.store(false, std::sync::atomic::Ordering::Release);
       shutdown::publish_socket_closing_event(&core_arc.context, core_handle).await;
       shutdown::initiate_core_shutdown(core_arc.clone(), socket_logic_strong, false).await;
     }
